@@ -254,6 +254,8 @@ class FuncTranslator:
             if v is None:
                 return TOpt(None)
             raise Untranslatable(f"constant {v!r}")
+        if isinstance(e, ast.JoinedStr):
+            return STR
         if isinstance(e, ast.Name):
             if e.id in self.m.consts:
                 return self.m.consts[e.id][1]
@@ -400,6 +402,8 @@ class FuncTranslator:
                 return self.coerce(json.dumps(v, ensure_ascii=False), STR, expected)
             if v is None:
                 return "none"
+        if isinstance(e, ast.JoinedStr):
+            return json.dumps(self.fold_fstring(e), ensure_ascii=False)
         if isinstance(e, ast.Name):
             if e.id in self.m.consts:
                 return self.coerce(self.m.consts[e.id][0], self.m.consts[e.id][1], expected)
@@ -477,6 +481,19 @@ class FuncTranslator:
             return self.call(e, expected)
         raise Untranslatable(f"{self.name}: expression {type(e).__name__}")
 
+    def fold_fstring(self, e):
+        """an f-string whose fields are module-level string / int constants is a literal"""
+        out = ""
+        for v in e.values:
+            if isinstance(v, ast.Constant) and isinstance(v.value, str):
+                out += v.value
+            elif isinstance(v, ast.FormattedValue) and isinstance(v.value, ast.Name) and v.value.id in self.m.consts \
+                    and v.conversion == -1 and v.format_spec is None:
+                out += str(self.m.consts[v.value.id][2])
+            else:
+                raise Untranslatable("f-string with a non-constant field")
+        return out
+
     def listcomp(self, e, expected):
         saved = dict(self.env)
         for g in e.generators:
@@ -550,7 +567,8 @@ class FuncTranslator:
             if fn.id == "round" and len(e.args) == 1:
                 return self.coerce(f"(Py.round {self.expr(e.args[0], FLOAT)})", INT, expected)
             if fn.id in ("max", "min") and len(e.args) == 1:
-                return self.coerce(f"(Py.{fn.id}List {self.expr(e.args[0])})", t, expected)
+                suffix = "F" if t == FLOAT else ""
+                return self.coerce(f"(Py.{fn.id}List{suffix} {self.expr(e.args[0])})", t, expected)
             if fn.id in self.m.units:
                 callee = self.m.units[fn.id]
                 cdef = callee.f
@@ -869,9 +887,10 @@ class FuncTranslator:
         if isinstance(s, ast.Raise):
             exc = s.exc
             if not (isinstance(exc, ast.Call) and isinstance(exc.func, ast.Name) and exc.func.id == "ValueError"
-                    and len(exc.args) == 1 and isinstance(exc.args[0], ast.Constant)):
+                    and len(exc.args) == 1 and isinstance(exc.args[0], (ast.Constant, ast.JoinedStr))):
                 raise Untranslatable("raise of something other than ValueError(<literal>)")
-            return [f"{ind}(Except.error {json.dumps(exc.args[0].value)})"]
+            msg = exc.args[0].value if isinstance(exc.args[0], ast.Constant) else self.fold_fstring(exc.args[0])
+            return [f"{ind}(Except.error {json.dumps(msg, ensure_ascii=False)})"]
         if isinstance(s, ast.If):
             tb, eb = self.terminates(s.body), self.terminates(s.orelse)
             c = self.cond(s.test)
@@ -902,8 +921,11 @@ class FuncTranslator:
         if isinstance(s, ast.For):
             if s.orelse:
                 raise Untranslatable("for-else")
-            if any(isinstance(n, (ast.Return, ast.Raise, ast.Break, ast.Continue)) for b in s.body for n in ast.walk(b)):
-                raise Untranslatable(f"{self.name}: return/raise/break/continue inside a loop")
+            if any(isinstance(n, (ast.Return, ast.Break, ast.Continue)) for b in s.body for n in ast.walk(b)):
+                raise Untranslatable(f"{self.name}: return/break/continue inside a loop")
+            raising = any(isinstance(n, ast.Raise) for b in s.body for n in ast.walk(b))
+            if raising and any(isinstance(n, (ast.For, ast.While)) for b in s.body for n in ast.walk(b)):
+                raise Untranslatable(f"{self.name}: raise inside nested loops")
             tnames = [x.id for x in ast.walk(s.target) if isinstance(x, ast.Name)]
             for tn in tnames:
                 if tn != "_" and later_reads(tn):
@@ -918,6 +940,32 @@ class FuncTranslator:
             d0 = defined | set(carried)
             st, it = self.new("st"), self.new("it")
             et = self._elem_type(s.iter)
+            if raising:
+                # a loop that may raise: the fold runs in `Except String`; once an iteration has raised, the rest are skipped
+                pt = self.pack_type(carried)
+                ex = self.new("ex")
+                lines += [f"{ind}match (List.foldl (fun ({ex} : Except String ({pt})) ({it} : {lean_type(et)}) => (match {ex} with",
+                          f"{ind}    | Except.error e => Except.error e",
+                          f"{ind}    | Except.ok {st} => ("]
+                body_ind = ind + "      "
+                lines += self.unpack(carried, st, body_ind)
+                if isinstance(s.target, ast.Name):
+                    if s.target.id != "_":
+                        lines.append(f"{body_ind}let {ident(s.target.id)} : {lean_type(et)} := {it}")
+                else:
+                    n_ = len(s.target.elts)
+                    for i, x in enumerate(s.target.elts):
+                        if x.id == "_":
+                            continue
+                        proj = ".2" * i + (".1" if i < n_ - 1 else "")
+                        lines.append(f"{body_ind}let {ident(x.id)} : {lean_type(et[1][i])} := {it}{proj}")
+                lines += self.block(s.body, lambda d: [f"{body_ind}(Except.ok {self.pack(carried)})"], d0 | set(tnames), body_ind,
+                                    lambda n: n in carried)
+                lines += [f"{ind}    ))) (Except.ok {self.pack(carried)}) {self.iterable(s.iter)} : Except String ({pt})) with",
+                          f"{ind}| Except.error e => Except.error e",
+                          f"{ind}| Except.ok {st} => ("]
+                lines += self.unpack(carried, st, ind + "  ")
+                return lines + self.block(rest, k, d0, ind + "  ", after_reads) + [f"{ind}  )"]
             lines += [f"{ind}let {st} : {self.pack_type(carried)} := List.foldl (fun ({st} : {self.pack_type(carried)}) ({it} : {lean_type(et)}) => ("]
             body_ind = ind + "    "
             lines += self.unpack(carried, st, body_ind)
@@ -972,9 +1020,9 @@ class FuncTranslator:
         self.loop_k.pop()
         lines += [f"{ind}    )) {self.pack(carried)} with"]
         lines += [f"{ind}| none => none"]
-        lines += [f"{ind}| some {st} =>"]
+        lines += [f"{ind}| some {st} => ("]
         lines += self.unpack(carried, st, ind + "  ")
-        return lines + self.block(rest, k, d0, ind + "  ", after_reads)
+        return lines + self.block(rest, k, d0, ind + "  ", after_reads) + [f"{ind}  )"]
 
     def ret(self, val, ind):
         if self.has_while:
@@ -1126,7 +1174,7 @@ class SelfRewriter(ast.NodeTransformer):
         return node
 
 
-def method_as_function(tree, cls, meth, lean_name, pseudo_of):
+def method_as_function(tree, cls, meth, lean_name, pseudo_of, self_fields=None):
     import copy
     for node in tree.body:
         if isinstance(node, ast.ClassDef) and node.name == cls:
@@ -1138,7 +1186,7 @@ def method_as_function(tree, cls, meth, lean_name, pseudo_of):
                     for n in ast.walk(f):
                         if isinstance(n, ast.Call) and isinstance(n.func, ast.Name) and n.func.id in pseudo_of:
                             used |= set(pseudo_of[n.func.id])
-                    pseudo = [p for p in PSEUDO if p in used]
+                    pseudo = [p for p in (self_fields or PSEUDO) if p in used]
                     explicit = [a.arg for a in f.args.args if a.arg not in ("self", "state_list")]
                     f.args.args = [ast.arg(arg=a) for a in pseudo + explicit]
                     f.args.defaults = []
@@ -1177,7 +1225,7 @@ class ModuleTranslator:
         self.pseudo_of = {}
         for name, cfg in units.items():
             if "cls" in cfg:
-                f = method_as_function(self.tree, cfg["cls"], cfg["of"], name, self.pseudo_of)
+                f = method_as_function(self.tree, cfg["cls"], cfg["of"], name, self.pseudo_of, cfg.get("self_fields"))
                 if f is not None:
                     fdefs[name] = f
         for name, cfg in units.items():
@@ -1288,6 +1336,13 @@ TAD_UNITS = {
     "PlayerTwo_value_iteration_rewards": _m("PlayerTwo", "value_iteration_rewards", ACT_ROW, TRIPLE),
     "PlayerTwo_get_worst_strategies_total_rewards": _m("PlayerTwo", "get_worst_strategies_total_rewards", ACT_ROW, TList(STR)),
 }
+
+
+TAD_UNITS["StochasticGame_check_game"] = {
+    "cls": "StochasticGame", "of": "check_game", "returns": UNIT,
+    "self_fields": ["transition_list", "num_states", "rewards", "final_states", "players"],
+    "params": {"transition_list": TList(TVar("A")), "num_states": INT, "rewards": TList(FLOAT), "final_states": TList(INT),
+               "players": TList(STR)}}
 
 
 def write_if_changed(path, text):
